@@ -30,10 +30,10 @@ PAR = 14     # of them at a time
 # streams that can run under each tool: Miri cannot spawn the sacrificial child of the C13 section
 # probe, and must not be asked to run the statistical / large-mesh streams
 MIRI = {
-    "C02": dict(scale=0.0004, streams=None),
+    "C02": dict(scale=0.0004, streams=["curve2", "curve3", "mesh"]),
     "C06": dict(scale=0.0004, streams=None),
-    "C13": dict(scale=0.002, streams=["closed-meshes"]),
-    "C15": dict(scale=0.0006, streams=["kdtree3", "kdtree2", "poisson", "hull"]),
+    "C13": dict(scale=0.001, streams=["closed-meshes"]),
+    "C15": dict(scale=0.0004, streams=["kdtree3", "kdtree2", "poisson", "hull"]),
     "C20": dict(scale=0.002, streams=["planar", "rejection"]),
 }
 ASAN = {
